@@ -6,7 +6,7 @@
     zero-length close marker, the > 4 MiB discard, decode-failure-continues.  [conn_receive] puts
     Handshake.Wait in front of it.  [frame b = u32be(len b) ++ b] is what the sender writes. *)
 From Coq Require Import List NArith ZArith Lia.
-From Vivid Require Import Codec.Prim Remoting.Frame Remoting.FrameProofs.
+From Vivid Require Import Codec.Prim Remoting.Frame Remoting.FrameProofs Remoting.Churn Remoting.ChurnProofs.
 Import ListNotations.
 Local Open Scope N_scope.
 
@@ -123,6 +123,88 @@ Proof.
   rewrite <- E, I, E. reflexivity.
 Qed.
 
+(** ---- receiver churn (model: Remoting/Churn.v; proofs: Remoting/ChurnProofs.v) ----
+    The receiving system resolves the receiver of every inbound envelope AT ARRIVAL TIME against the actors
+    registered then ([registry]: path -> (incarnation, restart epoch)).  A script interleaves spawn / kill /
+    restart steps of the receiving system with the reads of one healthy connection ([STraffic chunks]).
+    [run_churn] lists, in order, what happens to every decoded message: [ODeliver p a m] (enqueued into the
+    mailbox of the actor [a] registered at p) or [ODead p m] (dead letter on the receiving system). *)
+
+(** every message of a traffic phase, anywhere in a script, is dispatched exactly once and in order against the
+    registry as it is when the phase begins, for every chunking of the phase's bytes *)
+Theorem C11_churn_phase_exactly_once :
+  forall (M : Type) (enc : M -> bytes) (dec : bytes -> option M) (rpath : M -> bytes),
+    (forall m, dec (enc m) = Some m) ->
+    forall (pre post : list step) (ms : list M) (chunks : list bytes) (r : registry),
+      Forall (fun m => 1 <= N.of_nat (length (enc m)) <= max_frame) ms ->
+      concat chunks = concat (map (fun m => frame (enc m)) ms) ->
+      run_churn dec rpath (pre ++ STraffic chunks :: post) r =
+        run_churn dec rpath pre r ++ map (dispatch rpath (reg_after pre r)) ms
+          ++ run_churn dec rpath post (reg_after pre r).
+Proof. exact (@churn_phase). Qed.
+
+(** name reuse: after "the actor at p was killed; a new actor i was spawned at p" - whatever the history [pre],
+    in particular earlier remote traffic to p and earlier incarnations - the messages sent to p are delivered to
+    incarnation i exactly once, in order, and none is dead-lettered *)
+Theorem C11_respawned_actor_receives :
+  forall (M : Type) (enc : M -> bytes) (dec : bytes -> option M) (rpath : M -> bytes),
+    (forall m, dec (enc m) = Some m) ->
+    forall (pre : list step) (p : bytes) (i : N) (ms : list M) (chunks : list bytes) (r : registry),
+      Forall (fun m => 1 <= N.of_nat (length (enc m)) <= max_frame) ms ->
+      Forall (fun m => rpath m = p) ms ->
+      concat chunks = concat (map (fun m => frame (enc m)) ms) ->
+      run_churn dec rpath (pre ++ [SKill p; SSpawn p i; STraffic chunks]) r =
+        run_churn dec rpath pre r ++ map (ODeliver p {| i_inc := i; i_epoch := 0 |}) ms.
+Proof. exact (@churn_respawn_delivers). Qed.
+
+(** a supervision restart keeps the registration: same incarnation, next epoch *)
+Theorem C11_restarted_actor_receives :
+  forall (M : Type) (enc : M -> bytes) (dec : bytes -> option M) (rpath : M -> bytes),
+    (forall m, dec (enc m) = Some m) ->
+    forall (pre : list step) (p : bytes) (a : inst) (ms : list M) (chunks : list bytes) (r : registry),
+      lookup p (reg_after pre r) = Some a ->
+      Forall (fun m => 1 <= N.of_nat (length (enc m)) <= max_frame) ms ->
+      Forall (fun m => rpath m = p) ms ->
+      concat chunks = concat (map (fun m => frame (enc m)) ms) ->
+      run_churn dec rpath (pre ++ [SRestart p; STraffic chunks]) r =
+        run_churn dec rpath pre r ++ map (ODeliver p {| i_inc := i_inc a; i_epoch := i_epoch a + 1 |}) ms.
+Proof. exact (@churn_restart_delivers). Qed.
+
+(** while nobody is registered at p the messages are dead letters on the receiving system, in order *)
+Theorem C11_killed_actor_dead_letters :
+  forall (M : Type) (enc : M -> bytes) (dec : bytes -> option M) (rpath : M -> bytes),
+    (forall m, dec (enc m) = Some m) ->
+    forall (pre : list step) (p : bytes) (ms : list M) (chunks : list bytes) (r : registry),
+      Forall (fun m => 1 <= N.of_nat (length (enc m)) <= max_frame) ms ->
+      Forall (fun m => rpath m = p) ms ->
+      concat chunks = concat (map (fun m => frame (enc m)) ms) ->
+      run_churn dec rpath (pre ++ [SKill p; STraffic chunks]) r =
+        run_churn dec rpath pre r ++ map (ODead p) ms.
+Proof. exact (@churn_killed_dead_letters). Qed.
+
+(** non-vacuity: path [47] ("/"), messages are their own encoding and all go to that path; incarnation 1 gets
+    [7], is killed, incarnation 2 is spawned under the same name and gets [8] and [9] (the stream cut inside a
+    length prefix), is restarted and gets [5] *)
+Example C11_churn_example :
+  let enc := fun b : bytes => b in
+  let rp := fun _ : bytes => [47] in
+  let script := [SSpawn [47] 1; STraffic [[0; 0; 0; 1; 7]]; SKill [47]; SSpawn [47] 2;
+                 STraffic [[0; 0]; [0; 1; 8; 0; 0; 0; 1; 9]]; SRestart [47]; STraffic [[0; 0; 0; 1; 5]]] in
+  (forall m, Some (enc m) = Some m) /\
+  Forall (fun m => 1 <= N.of_nat (length (enc m)) <= max_frame) [[8]; [9]] /\
+  concat [[0; 0]; [0; 1; 8; 0; 0; 0; 1; 9]] = concat (map (fun m => frame (enc m)) [[8]; [9]]) /\
+  lookup [47] (reg_after [SSpawn [47] 1; STraffic [[0; 0; 0; 1; 7]]; SKill [47]; SSpawn [47] 2] []) =
+    Some {| i_inc := 2; i_epoch := 0 |} /\
+  run_churn (fun b => Some b) rp script [] =
+    [ODeliver [47] {| i_inc := 1; i_epoch := 0 |} [7];
+     ODeliver [47] {| i_inc := 2; i_epoch := 0 |} [8]; ODeliver [47] {| i_inc := 2; i_epoch := 0 |} [9];
+     ODeliver [47] {| i_inc := 2; i_epoch := 1 |} [5]].
+Proof.
+  cbn zeta. split; [reflexivity|].
+  split; [constructor; [unfold max_frame; cbn; lia|constructor; [unfold max_frame; cbn; lia|constructor]]|].
+  split; [reflexivity|]. split; reflexivity.
+Qed.
+
 Print Assumptions C11_chunking_independent.
 Print Assumptions C11_handshake_chunking_independent.
 Print Assumptions C11_model_fuel_suffices.
@@ -134,3 +216,7 @@ Print Assumptions C11_envelope_frame_is_not_close.
 Print Assumptions C11_sender_writes_only_legal_frames.
 Print Assumptions C11_envelope_roundtrip.
 Print Assumptions C11_sender_ref.
+Print Assumptions C11_churn_phase_exactly_once.
+Print Assumptions C11_respawned_actor_receives.
+Print Assumptions C11_restarted_actor_receives.
+Print Assumptions C11_killed_actor_dead_letters.
